@@ -205,6 +205,10 @@ def correspondence(ctx):
         s.add(f'brank {stack(m)}', guarded(lambda: str(bpauli.brank(np.array(m)))),
               {'matrix': m, 'fn': 'brank'}, tag='brank')
     streams.append(s.run())
+
+    # --- panqec/bsparse.py, all 14 functions, against Model/BSparse.lean (harness/props/c03_bsparse.py)
+    from harness.props import c03_bsparse
+    streams += c03_bsparse.streams(ctx)
     return streams
 
 
